@@ -159,8 +159,10 @@ Definition blocked (g : gst) (w h : wid) (l : clabel) : gst :=
   else ev (upd_w g w (fun s => wset_wait s (Some h))) w l SBlocked.
 
 Definition vfind (vs : list vrow) (k : ckey) : option vrow := find (fun r => ckey_eqb (v_key r) k) vs.
-Definition vmap_key (vs : list vrow) (k : ckey) (f : vrow -> vrow) : list vrow :=
-  map (fun r => if ckey_eqb (v_key r) k then f r else r) vs.
+(* rewrite the row(s) of key k that w may take: unlocked or already its own (keys are unique in reachable states) *)
+Definition free_for (w : wid) (r : vrow) : bool := match v_lock r with None => true | Some h => Nat.eqb h w end.
+Definition vtake (vs : list vrow) (w : wid) (k : ckey) (f : vrow -> vrow) : list vrow :=
+  map (fun r => if ckey_eqb (v_key r) k && free_for w r then f r else r) vs.
 
 (* ---------- the store calls ---------- *)
 Definition find_ik (g : gst) (ik : string) : option lrow :=
@@ -175,13 +177,15 @@ Definition do_ik (g : gst) (w : wid) (s : wst) : gst :=
       | None => upd_w g w (fun s => wset_pc s (after_ik o))
       end) w LIk SDone.
 
-(* forgeLogRetry after an idempotency-key conflict: fetchLogWithIK outside any transaction *)
+(* fetchLogWithIK outside any transaction: in forgeLogRetry after an idempotency-key conflict, and (errorOrIKOutcome) after any
+   other failure of a request that carries a key - a concurrent request with the same key may have committed since the first
+   lookup; its log is then the outcome.  When no log is found the failure (kept in w_err) is returned. *)
 Definition do_fetch (g : gst) (w : wid) (s : wst) : gst :=
   let o := w_op s in
   ev (match find_ik g (o_ik o) with
       | Some l => if l_inh l =? o_inh o then upd_w g w (fun s => wset_res s (ROk (l_id l) (l_tx l) true) PDone)
                   else upd_w g w (fun s => wset_res s (RErr EIkInput) PDone)
-      | None => upd_w g w (fun s => wset_res s (RErr EIkConflict) PDone)
+      | None => upd_w g w (fun s => wset_res s (RErr (match w_err s with Some e => e | None => EIkConflict end)) PDone)
       end) w LIk SDone.
 
 (* RevertTransaction: UPDATE transactions SET reverted_at ... WHERE id = ? AND reverted_at IS NULL (row lock; the WHERE is
@@ -196,6 +200,7 @@ Definition do_rev (g : gst) (w : wid) (s : wst) : gst :=
          | Some h => if Nat.eqb h w then ev (upd_w g w (fun s => wset_pc s PBal)) w LRev SDone else blocked g w h LRev
          | None =>
            let txs := map (fun x => if (t_id x =? o_tx o) && match t_own x with None => true | Some _ => false end
+                                       && negb (t_rev x) && match t_revlock x with None => true | Some _ => false end
                                     then {| t_id := t_id x; t_ref := t_ref x; t_own := t_own x; t_rev := t_rev x; t_revlock := Some w; t_pend := t_pend x |} else x) (g_txs g) in
            ev (upd_w (set_txs g txs) w (fun s => wset_pc s PBal)) w LRev SDone
          end
@@ -205,7 +210,7 @@ Definition do_rev (g : gst) (w : wid) (s : wst) : gst :=
 Definition bal_done (g : gst) (w : wid) (o : cop) (read : Z) (locked : bool) : gst :=
   let g1 := upd_w g w (fun s => wset_read s read locked) in
   match allowance o with
-  | Some a => if o_amt o <=? read + a then upd_w g1 w (fun s => wset_pc s PVol) else fail_soft g1 w EInsufficient
+  | Some a => if (0 <=? o_amt o) && (o_amt o <=? read + a) then upd_w g1 w (fun s => wset_pc s PVol) else fail_soft g1 w EInsufficient
   | None => upd_w g1 w (fun s => wset_pc s PVol)
   end.
 
@@ -229,19 +234,20 @@ Definition do_bal (g : gst) (w : wid) (s : wst) : gst :=
   | Some x =>
     match v_lock x with
     | Some h =>
-      if Nat.eqb h w then ev (bal_done g w o (v_bal x) true) w LBal SDone
-      else if v_new x then wait h                               (* unique-index wait for the in-flight inserter *)
+      if v_new x then wait h                               (* unique-index wait for the in-flight inserter *)
       else if v_upd x then wait h                               (* the conflicting row is being updated: wait *)
       else if norow then ev (bal_done g w o 0 false) w LBal SDone   (* DO NOTHING; the snapshot has no row: 0, and NO lock *)
       else wait h                                               (* FOR UPDATE waits for the row lock *)
     | None =>
       if norow then ev (bal_done g w o 0 false) w LBal SDone
       else (* lock the row; after a wait this is the newest committed version *)
-        ev (bal_done (set_vols g (vmap_key (g_vols g) k (fun x => {| v_key := v_key x; v_bal := v_bal x; v_pend := v_pend x; v_lock := Some w; v_new := v_new x; v_upd := v_upd x |}))) w o (v_bal x) true) w LBal SDone
+        ev (bal_done (set_vols g (vtake (g_vols g) w k (fun x => {| v_key := v_key x; v_bal := v_bal x; v_pend := v_pend x; v_lock := Some w; v_new := v_new x; v_upd := v_upd x |}))) w o (v_bal x) true) w LBal SDone
     end
   end.
 
-(* UpdateVolumes: INSERT ... ON CONFLICT (k) DO UPDATE SET input = input + excluded.input ..., rows sorted by account *)
+(* UpdateVolumes: INSERT ... ON CONFLICT (k) DO UPDATE SET input = input + excluded.input ..., rows sorted by account.
+   One statement touches a key once (the postings of a key are aggregated): a row this transaction has already written
+   (v_upd, only possible for its own row) is not written again. *)
 Definition vol_keys (o : cop) : list (ckey * Z) :=
   if ckey_eqb (src_key o) (dst_key o) then [(src_key o, 0)]
   else if String.leb (o_src o) (o_dst o) then [(src_key o, - o_amt o); (dst_key o, o_amt o)]
@@ -256,7 +262,7 @@ Fixpoint vol_loop (g : gst) (w : wid) (ks : list (ckey * Z)) (i : nat) : gst :=
       let row := {| v_key := k; v_bal := 0; v_pend := d; v_lock := Some w; v_new := true; v_upd := true |} in
       vol_loop (set_vols g (g_vols g ++ [row])) w rest (S i)
     | Some x =>
-      let take := vol_loop (set_vols g (vmap_key (g_vols g) k (fun x => {| v_key := v_key x; v_bal := v_bal x; v_pend := v_pend x + d; v_lock := Some w; v_new := v_new x; v_upd := true |}))) w rest (S i) in
+      let take := vol_loop (set_vols g (vtake (g_vols g) w k (fun x => {| v_key := v_key x; v_bal := v_bal x; v_pend := if v_upd x then v_pend x else v_pend x + d; v_lock := Some w; v_new := v_new x; v_upd := true |}))) w rest (S i) in
       match v_lock x with
       | Some h => if Nat.eqb h w then take else blocked (upd_w g w (fun s => wset_volk s i)) w h LVol
       | None => take
@@ -266,26 +272,29 @@ Fixpoint vol_loop (g : gst) (w : wid) (ks : list (ckey * Z)) (i : nat) : gst :=
 Definition do_vol (g : gst) (w : wid) (s : wst) : gst :=
   vol_loop g w (skipn (w_volk s) (vol_keys (w_op s))) (w_volk s).
 
-(* InsertTransaction: id = nextval (drawn when the statement starts, never given back); unique (ledger, reference) *)
-Definition t_publish (id : Z) (t : trow) : trow :=
-  if t_id t =? id then {| t_id := t_id t; t_ref := t_ref t; t_own := t_own t; t_rev := t_rev t; t_revlock := t_revlock t; t_pend := false |} else t.
+(* InsertTransaction: id = nextval (drawn when the statement starts, never given back); unique (ledger, reference).
+   The row whose id has been drawn is "pending" until the unique index lets it in. *)
+Definition t_publish (id : Z) (ref : string) (t : trow) : trow :=
+  if (t_id t =? id) && String.eqb (t_ref t) ref
+  then {| t_id := t_id t; t_ref := t_ref t; t_own := t_own t; t_rev := t_rev t; t_revlock := t_revlock t; t_pend := false |} else t.
 Definition tx_ref (o : cop) : string := match o_kind o with KCreate => o_ref o | KRevert => ""%string end.
+Definition my_pending_tx (g : gst) (w : wid) : option trow := find (fun t => owner_is (t_own t) w && t_pend t) (g_txs g).
 Definition do_tx (g : gst) (w : wid) (s : wst) : gst :=
   let o := w_op s in
-  let ref := tx_ref o in
-  let '(g1, id) := match w_txid s with
-                   | Some i => (g, i)
-                   | None =>
-                     let row := {| t_id := g_ntx g; t_ref := ref; t_own := Some w; t_rev := false; t_revlock := None; t_pend := true |} in
-                     (upd_w (set_ntx (set_txs g (g_txs g ++ [row])) (g_ntx g + 1)) w (fun s => wset_txid s (Some (g_ntx g))), g_ntx g)
-                   end in
+  let '(g1, row) := match my_pending_tx g w with
+                    | Some r => (g, r)
+                    | None =>
+                      let row := {| t_id := g_ntx g; t_ref := tx_ref o; t_own := Some w; t_rev := false; t_revlock := None; t_pend := true |} in
+                      (upd_w (set_ntx (set_txs g (g_txs g ++ [row])) (g_ntx g + 1)) w (fun s => wset_txid s (Some (g_ntx g))), row)
+                    end in
+  let ref := t_ref row in
   let insert :=
-    ev (upd_w (set_txs g1 (map (t_publish id) (g_txs g1))) w (fun s => wset_pc s (if g_hash g then PAdv else PLog))) w LTx SDone in
+    ev (upd_w (set_txs g1 (map (t_publish (t_id row) ref) (g_txs g1))) w (fun s => wset_pc s (if g_hash g then PAdv else PLog))) w LTx SDone in
   if String.eqb ref "" then insert
   else match find (fun t => String.eqb (t_ref t) ref && negb (t_pend t)) (g_txs g1) with
        | None => insert
        | Some t => match t_own t with
-                   | Some h => if Nat.eqb h w then insert else blocked g1 w h LTx
+                   | Some h => blocked g1 w h LTx
                    | None => ev (fail_abort g1 w ERefConflict) w LTx SDone
                    end
        end.
@@ -298,25 +307,28 @@ Definition do_adv (g : gst) (w : wid) (s : wst) : gst :=
   end.
 
 (* InsertLog: id = nextval; unique (ledger, idempotency_key) *)
-Definition l_publish (id : Z) (l : lrow) : lrow :=
-  if l_id l =? id then {| l_id := l_id l; l_ik := l_ik l; l_inh := l_inh l; l_own := l_own l; l_tx := l_tx l; l_pend := false |} else l.
+Definition l_publish (id : Z) (ik : string) (l : lrow) : lrow :=
+  if (l_id l =? id) && String.eqb (l_ik l) ik
+  then {| l_id := l_id l; l_ik := l_ik l; l_inh := l_inh l; l_own := l_own l; l_tx := l_tx l; l_pend := false |} else l.
+Definition my_pending_log (g : gst) (w : wid) : option lrow := find (fun l => owner_is (l_own l) w && l_pend l) (g_logs g).
 Definition do_log (g : gst) (w : wid) (s : wst) : gst :=
   if g_hash g && negb (owner_is (g_adv g) w) then g else
   let o := w_op s in
-  let '(g1, id) := match w_logid s with
-                   | Some i => (g, i)
-                   | None =>
-                     let row := {| l_id := g_nlog g; l_ik := o_ik o; l_inh := o_inh o; l_own := Some w;
-                                   l_tx := match w_txid s with Some i => i | None => 0 end; l_pend := true |} in
-                     (upd_w (set_nlog (set_logs g (g_logs g ++ [row])) (g_nlog g + 1)) w (fun s => wset_logid s (Some (g_nlog g))), g_nlog g)
-                   end in
+  let '(g1, row) := match my_pending_log g w with
+                    | Some r => (g, r)
+                    | None =>
+                      let row := {| l_id := g_nlog g; l_ik := o_ik o; l_inh := o_inh o; l_own := Some w;
+                                    l_tx := match w_txid s with Some i => i | None => 0 end; l_pend := true |} in
+                      (upd_w (set_nlog (set_logs g (g_logs g ++ [row])) (g_nlog g + 1)) w (fun s => wset_logid s (Some (g_nlog g))), row)
+                    end in
+  let ik := l_ik row in
   let insert :=
-    ev (upd_w (set_logs g1 (map (l_publish id) (g_logs g1))) w (fun s => wset_pc s PCommit)) w LLog SDone in
-  if String.eqb (o_ik o) "" then insert
-  else match find (fun l => String.eqb (l_ik l) (o_ik o) && negb (l_pend l)) (g_logs g1) with
+    ev (upd_w (set_logs g1 (map (l_publish (l_id row) ik) (g_logs g1))) w (fun s => wset_pc s PCommit)) w LLog SDone in
+  if String.eqb ik "" then insert
+  else match find (fun l => String.eqb (l_ik l) ik && negb (l_pend l)) (g_logs g1) with
        | None => insert
        | Some l => match l_own l with
-                   | Some h => if Nat.eqb h w then insert else blocked g1 w h LLog
+                   | Some h => blocked g1 w h LLog
                    | None => ev (fail_abort g1 w EIkConflict) w LLog SDone
                    end
        end.
@@ -337,19 +349,24 @@ Definition do_commit (g : gst) (w : wid) (s : wst) : gst :=
   let g1 := {| g_vols := vols'; g_txs := map (t_commit w) (g_txs g); g_logs := map (l_commit w) (g_logs g);
                g_ntx := g_ntx g; g_nlog := g_nlog g; g_adv := if owner_is (g_adv g) w then None else g_adv g; g_hash := g_hash g;
                g_ws := clear_waits (g_ws g) w;
-               g_commits := g_commits g ++ [w]; g_clogs := g_clogs g ++ [lid]; g_ctxs := g_ctxs g ++ [tid];
-               g_revs := g_revs g ++ (match o_kind o with KRevert => [o_tx o] | KCreate => [] end);
+               g_commits := g_commits g ++ [w];
+               g_clogs := g_clogs g ++ map l_id (filter (fun l => owner_is (l_own l) w) (g_logs g));       (* the log(s) this COMMIT makes visible *)
+               g_ctxs := g_ctxs g ++ [tid];
+               g_revs := g_revs g ++ map t_id (filter (fun t => owner_is (t_revlock t) w) (g_txs g));   (* the revert mark(s) it makes visible *)
                g_c06 := g_c06 g ++ c6; g_ev := g_ev g |} in
   ev (upd_w g1 w (fun s => wset_res s (ROk lid tid false) PDone)) w LCommit SDone.
 
-(* ROLLBACK, then forgeLog's decision: retry on deadlock / idempotency-key conflict, otherwise return the error *)
+(* ROLLBACK, then forgeLog's decision: retry on deadlock / idempotency-key conflict; otherwise return the error - unless the
+   request carries an idempotency key: then look the key up once more (errorOrIKOutcome) *)
 Definition do_rollback (g : gst) (w : wid) (s : wst) : gst :=
   let g1 := abort g w in
   ev (match w_err s with
       | None => upd_w g1 w (fun s => wset_res s (w_res s) PDone)                 (* idempotency hit *)
       | Some EDeadlock => upd_w g1 w restart
       | Some EIkConflict => if w_retry s then upd_w g1 w (fun s => wset_pc (wset_err s None) PFetch) else upd_w g1 w restart
-      | Some e => upd_w g1 w (fun s => wset_res s (RErr e) PDone)
+      | Some EIkInput => upd_w g1 w (fun s => wset_res s (RErr EIkInput) PDone)          (* from the first lookup: returned as is *)
+      | Some e => if String.eqb (o_ik (w_op s)) "" then upd_w g1 w (fun s => wset_res s (RErr e) PDone)
+                  else upd_w g1 w (fun s => wset_pc s PFetch)                             (* errorOrIKOutcome *)
       end) w LRollback SDone.
 
 Definition step (g : gst) (w : wid) : gst :=
@@ -384,7 +401,8 @@ Definition after_prefix (hash : bool) (prefix writers : list cop) : gst :=
 Definition results (g : gst) : list cres := map w_res (g_ws g).
 Definition committed_vols (g : gst) : list (ckey * Z) :=
   map (fun r => (v_key r, v_bal r)) (filter (fun r => negb (v_new r)) (g_vols g)).
-Definition committed_txs (g : gst) : list trow := filter (fun t => match t_own t with None => true | Some _ => false end) (g_txs g).
-Definition committed_logs (g : gst) : list lrow := filter (fun l => match l_own l with None => true | Some _ => false end) (g_logs g).
+(* committed rows that are in the table (a pending row only records a drawn id) *)
+Definition committed_txs (g : gst) : list trow := filter (fun t => match t_own t with None => negb (t_pend t) | Some _ => false end) (g_txs g).
+Definition committed_logs (g : gst) : list lrow := filter (fun l => match l_own l with None => negb (l_pend l) | Some _ => false end) (g_logs g).
 Definition sched_outcome (hash : bool) (prefix writers : list cop) (sched : list wid) : gst :=
   run (after_prefix hash prefix writers) sched.
